@@ -53,18 +53,20 @@ Record ext := mkExt {
   x_futs : list (Z * fut);
   x_nfut : Z;
   x_blocks : list (Z * list raw);
+  x_npool : Z;                   (* pools created so far (buffer identities are unique across pools) *)
+  x_held : list (Z * Z);         (* buffers (owner, id) whose BufferPtr the scenario (the user) holds *)
   x_arg : option (Z * Z);        (* buffer handed to the handler that is running (owner, id), if not kept yet *)
   x_acc : option (Z * Z)         (* (descriptor, peer) of the socket handed to the running connect handler *)
 }.
 #[export] Instance eta_ext : Settable _ :=
-  settable! mkExt <x_pools; x_socks; x_names; x_driver; x_todos; x_futs; x_nfut; x_blocks; x_arg; x_acc>.
+  settable! mkExt <x_pools; x_socks; x_names; x_driver; x_todos; x_futs; x_nfut; x_blocks; x_npool; x_held; x_arg; x_acc>.
 
 Definition dummy_pool : pool := {| p_max := 0; p_idle := []; p_busy := []; p_next := 0 |}.
 Definition no_driver : driver :=
   {| d_alive := false; d_from := -1; d_to := -1; d_todos := []; d_socks := []; d_pfds := []; d_stop := false |}.
 Definition ext_init : ext :=
   {| x_pools := []; x_socks := []; x_names := []; x_driver := no_driver; x_todos := []; x_futs := []; x_nfut := 0;
-     x_blocks := []; x_arg := None; x_acc := None |}.
+     x_blocks := []; x_npool := 0; x_held := []; x_arg := None; x_acc := None |}.
 
 Section Assoc.
 Context {V : Type}.
@@ -126,10 +128,31 @@ Definition pget (owner : Z) : MX buf := pool_get_m (fun x => owner_pool x owner)
 Definition precycle (owner id : Z) : MX unit := pool_recycle_m (fun x => owner_pool x owner) (set_owner_pool owner) id.
 Definition presize (owner id n : Z) : MX unit := pool_resize_m (fun x => owner_pool x owner) (set_owner_pool owner) id n.
 
-(* drop a BufferPtr the scenario may or may not still hold *)
+Definition is_held (owner id : Z) (l : list (Z * Z)) : bool :=
+  existsb (fun oi => (fst oi =? owner) && (snd oi =? id)) l.
+
+Fixpoint unhold_in (owner id : Z) (l : list (Z * Z)) : list (Z * Z) :=
+  match l with
+  | [] => []
+  | (o, i) :: t => if (o =? owner) && (i =? id) then t else (o, i) :: unhold_in owner id t
+  end.
+
+(* the scenario takes / gives up ownership of a BufferPtr *)
+Definition hold (owner id : Z) : MX unit :=
+  x <- get_ext ;; put_ext (x <| x_held := (owner, id) :: x_held x |>).
+
+(* drop a BufferPtr if the scenario still holds it *)
 Definition release_if_held (owner id : Z) : MX unit :=
   x <- get_ext ;;
-  if is_busy id (p_busy (owner_pool x owner)) then precycle owner id else ret tt.
+  if is_held owner id (x_held x)
+  then put_ext (x <| x_held := unhold_in owner id (x_held x) |>) ;;; precycle owner id
+  else ret tt.
+
+(* BufferPool(count, reserve): each pool draws its buffer identities from its own range *)
+Definition fresh_pool (count reserve : Z) : MX pool :=
+  x <- get_ext ;;
+  put_ext (x <| x_npool := x_npool x + 1 |>) ;;;
+  ret (pool_new (x_npool x * 1000000) count reserve).
 
 (* ---- trace entries above the system-call level -------------------------------------------------- *)
 Definition K_RET := 20.        (* [opcode; 1; results...] or [opcode; 0; exception code...] *)
